@@ -1799,6 +1799,9 @@ class ListProxy(list):
                 'Cannot pop an object from {clsname}.objects if '
                 'objects was not declared as a dictionary.'
             )
+        if len(args) > 1 and args[0] not in self._parameter.names:
+            # like dict.pop: nothing is removed, the default is returned
+            return args[1]
         with self._trigger():
             object = self._parameter.names.pop(*args)
             super().remove(object)
